@@ -385,3 +385,18 @@ Proof.
     rewrite X1, A1. destruct (Wh r Hn Hm) as [H|H]; [left; exact H|right].
     apply bounds_incl. exact H.
 Qed.
+
+(* ------------------------------------------------------------------ the packet is still there when it is read later *)
+Lemma bounds_ext g o : exists l, bounds (fst (gstep g o)) = l ++ bounds g.
+Proof. unfold gstep. destruct (step (cs g) o) as [s' r]. destruct o; simpl; try (exists []; reflexivity).
+  - destruct r as [w| |]; try destruct w; simpl; exists []; reflexivity.
+  - destruct (pend g && accepting (cs g)); simpl; [eexists [_]|exists []]; reflexivity. Qed.
+
+Lemma bounds_run_ext ops : forall g g', grun g ops = Some g' -> exists l, bounds g' = l ++ bounds g.
+Proof. induction ops as [|o ops IH]; simpl; intros g g' E.
+  - inversion E; subst. exists []; reflexivity.
+  - destruct (wf_opb g o); [|discriminate]. destruct (IH _ _ E) as (l & H). destruct (bounds_ext g o) as (l0 & H0).
+    exists (l ++ l0). rewrite H, H0, app_assoc. reflexivity. Qed.
+
+Lemma chain_front l bs a fs : chain bs a fs -> chain (l ++ bs) a fs.
+Proof. induction l as [|x l IH]; simpl; auto. intros H. apply chain_cons. auto. Qed.
